@@ -347,7 +347,59 @@ func typeEdits(g *Gen, prog *GProgram, r *Rand) string {
 		}
 		return "statement-fn-as-origin"
 	case 0:
-		return "none"
+		if r.Chance(1, 2) {
+			return "none"
+		}
+		// one argument of a built-in call (often the LAST one) gets a value of another type: a literal, or a
+		// variable declared with another type
+		var calls []*GFnCall
+		for _, v := range prog.Vars {
+			if v.Origin != nil {
+				calls = append(calls, v.Origin)
+			}
+		}
+		for _, s := range prog.Stmts {
+			if s.Kind == StCall {
+				calls = append(calls, s.Call)
+			}
+		}
+		if len(calls) == 0 || r.Chance(1, 3) {
+			// no call to edit: add an origin whose last argument is ill-typed
+			wrong := []*GExpr{{Kind: XString, S: "USD"}, {Kind: XNumber, N: bi(3)}, acct("a")}[r.Intn(3)]
+			name := g.freshName()
+			fn := r.Pick([]string{"balance", "overdraft"})
+			if fn == "overdraft" {
+				g.flag = true
+			}
+			prog.Vars = append(prog.Vars, &GVarDecl{Type: "monetary", Name: name, Origin: &GFnCall{Name: fn, Args: []*GExpr{acct(r.Pick(accountPool)), wrong}}})
+			prog.Stmts = append(prog.Stmts, &GStmt{Kind: StCall, Call: &GFnCall{Name: "set_tx_meta", Args: []*GExpr{{Kind: XString, S: "seen"}, {Kind: XVar, S: name}}}})
+			return "mistype-call-arg"
+		}
+		call := calls[r.Intn(len(calls))]
+		if len(call.Args) == 0 {
+			return "none"
+		}
+		i := len(call.Args) - 1
+		if r.Chance(1, 3) {
+			i = r.Intn(len(call.Args))
+		}
+		if call.Name == "set_tx_meta" || call.Name == "set_account_meta" {
+			if i == len(call.Args)-1 {
+				i = len(call.Args) - 2 // the value accepts any type: aim at the key
+			}
+		}
+		// a variable of a type that fits no parameter position of that call
+		wrongType := r.Pick([]string{"number", "portion", "monetary"})
+		name := g.freshName()
+		prog.Vars = append([]*GVarDecl{{Type: wrongType, Name: name}}, prog.Vars...)
+		g.rawVars[name] = map[string]string{"number": "7", "portion": "1/2", "monetary": "USD 5"}[wrongType]
+		if r.Chance(1, 2) {
+			call.Args[i] = &GExpr{Kind: XVar, S: name}
+		} else {
+			call.Args[i] = []*GExpr{{Kind: XNumber, N: bi(3)}, g.ratio(bi(1), bi(2)), lit("USD", bi(1))}[r.Intn(3)]
+			prog.Stmts = append(prog.Stmts, &GStmt{Kind: StCall, Call: &GFnCall{Name: "set_tx_meta", Args: []*GExpr{{Kind: XString, S: "u"}, {Kind: XVar, S: name}}}})
+		}
+		return "mistype-call-arg"
 	case 1: // mis-declare a variable: another type, or a type that does not exist (often on a variable with an origin)
 		if len(prog.Vars) > 0 {
 			v := prog.Vars[r.Intn(len(prog.Vars))]
